@@ -144,14 +144,21 @@ func checkDecode(pd protoDef, in []byte, pattern []int, preCap int, knownFull, k
 }
 
 func checkDecodeMode(pd protoDef, in []byte, pattern []int, preCap int, knownFull, knownAbr, precise bool) (ds decodeStats, fail *decodeFailure) {
-	cdc := pd.newCodec()
-	cr := &chunkReader{data: in, pattern: pattern}
-	rd := &countingReader{r: cr}
 	var b bin.Buffer
 	if preCap > 0 {
 		b.Buf = make([]byte, 0, preCap)
 	}
-	limitCap := max(preCap, frameLimit+allocSlack)
+	return checkDecodeBuf(pd, in, pattern, &b, frameLimit+allocSlack, knownFull, knownAbr, precise)
+}
+
+// checkDecodeBuf: the oracle over a whole input, reading every frame into b
+// as it is handed in (whatever it holds) and without resetting it in between.
+// allocLimit bounds the bytes allocated by one Read.
+func checkDecodeBuf(pd protoDef, in []byte, pattern []int, b *bin.Buffer, allocLimit int, knownFull, knownAbr, precise bool) (ds decodeStats, fail *decodeFailure) {
+	cdc := pd.newCodec()
+	cr := &chunkReader{data: in, pattern: pattern}
+	rd := &countingReader{r: cr}
+	limitCap := max(cap(b.Buf), allocLimit)
 	seq := uint32(0)
 	for calls := 0; calls < 64; calls++ {
 		off := rd.n
@@ -164,7 +171,7 @@ func checkDecodeMode(pd protoDef, in []byte, pattern []int, preCap int, knownFul
 			return ds, nil
 		}
 		rf, rerr := ref.ReadFrame(pd.ref, in, off, seq)
-		err, panicked, alloc := guardedRead(cdc, rd, &b, precise)
+		err, panicked, alloc := guardedRead(cdc, rd, b, precise)
 		consumed := rd.n - off
 		ctx := func() string {
 			return fmt.Sprintf("%s read #%d at offset %d of %d-byte input (head %x)", pd.name, calls, off, len(in), head(in[off:], 16))
@@ -179,19 +186,19 @@ func checkDecodeMode(pd protoDef, in []byte, pattern []int, preCap int, knownFul
 		if alloc > ds.maxAlloc {
 			ds.maxAlloc = alloc
 		}
-		if alloc > frameLimit+allocSlack {
+		if alloc > uint64(allocLimit) {
 			sig := "C17/alloc"
 			if shape == sigC17AbridgedAlloc {
 				sig = shape
 			}
-			return ds, &decodeFailure{sig, fmt.Sprintf("%s: allocated %d bytes for one frame (limit %d + slack %d), err=%v", ctx(), alloc, frameLimit, allocSlack, err), true}
+			return ds, &decodeFailure{sig, fmt.Sprintf("%s: allocated %d bytes for one frame (limit %d, bound with slack %d), err=%v", ctx(), alloc, frameLimit, allocLimit, err), true}
 		}
 		if cap(b.Buf) > limitCap {
 			sig := "C17/alloc"
 			if shape == sigC17AbridgedAlloc {
 				sig = shape
 			}
-			return ds, &decodeFailure{sig, fmt.Sprintf("%s: buffer capacity grew to %d (limit %d + slack %d), err=%v", ctx(), cap(b.Buf), frameLimit, allocSlack, err), false}
+			return ds, &decodeFailure{sig, fmt.Sprintf("%s: buffer capacity grew to %d (limit %d, bound with slack %d), err=%v", ctx(), cap(b.Buf), frameLimit, limitCap, err), false}
 		}
 		if calls == 0 {
 			ds.reachedLen = prefixComplete(pd, in)
@@ -512,6 +519,121 @@ func TestC17(t *testing.T) {
 		st.Case(key, ds.reachedLen, fmt.Sprintf("%s %s len=%d head=%x frames=%d perr=%d err=%d", pd.name, class, len(in), head(in, 12), ds.frames, ds.protoErrs, ds.errs), cls...)
 	})
 	st.Set("alloc_slack_bytes", allocSlack)
+}
+
+// reuseAllocLimit: the bound for one Read into a buffer the caller has used
+// before. Growing a non-empty Go slice rounds the needed size up by at most a
+// quarter (runtime growslice), which is the allocator's doing and not the
+// frame's; what the frame itself may claim is still frameLimit.
+const reuseAllocLimit = frameLimit + frameLimit/4 + allocSlack
+
+var c17ReuseSizes = []int{0, 1, 3, 4, 5, 11, 12, 1000, 4096, 1 << 20, 6 << 20, 9 << 20, 12 << 20, 16<<20 - 1024, 16 << 20}
+
+// TestC17Reuse: the frame limit holds per frame whatever the destination
+// buffer went through before: the buffer handed to Read holds L stale bytes
+// (a previous frame that was not Reset, or junk) in a backing array of
+// capacity >= L, then 1..3 valid frames of drawn sizes up to the maximum are
+// read into it back to back. Every frame must come out intact and no single
+// Read may allocate more than the bound.
+func TestC17Reuse(t *testing.T) {
+	st := pbt.NewStats("TestC17Reuse")
+	defer st.Flush()
+	knownFull := pbt.Known("C17", sigC17FullShortLen)
+	knownAbr := pbt.Known("C17", sigC17AbridgedAlloc)
+	rapid.Check(t, func(t *rapid.T) {
+		pd := rapid.SampledFrom(protoDefs).Draw(t, "proto")
+		prior := rapid.SampledFrom(c17ReuseSizes).Draw(t, "priorLen")
+		extra := rapid.SampledFrom([]int{0, 0, 1, 4, 16, 4096}).Draw(t, "priorSpare")
+		stale := byte(rapid.SampledFrom([]int{0, 0xff, 0x7f, 0xa5}).Draw(t, "stale"))
+		buf := make([]byte, prior, prior+extra)
+		if stale != 0 {
+			for i := range buf {
+				buf[i] = stale
+			}
+		}
+		nFrames := rapid.IntRange(1, 3).Draw(t, "frames")
+		var in []byte
+		var sizes []int
+		total := 0
+		for i := 0; i < nFrames; i++ {
+			ln := rapid.SampledFrom(c17ReuseSizes).Draw(t, "payloadLen")
+			if total+ln > 34<<20 {
+				ln = 4096
+			}
+			ln -= ln % 4
+			ln = min(ln, maxPayload(pd))
+			if ln < 8 {
+				ln = 8 // empty frames are refused; a 4-byte frame is a transport error code
+			}
+			total += ln
+			payload := make([]byte, ln)
+			for j, k := 0, rapid.IntRange(0, 8).Draw(t, "stamps"); j < k && ln > 0; j++ {
+				payload[rapid.IntRange(0, ln-1).Draw(t, "at")] = byte(rapid.IntRange(1, 255).Draw(t, "v"))
+			}
+			var pad []byte
+			if pd.ref == ref.FramePadded {
+				pad = pbt.DrawBytes(t, "pad", rapid.IntRange(0, 3).Draw(t, "padn"))
+			}
+			in = ref.AppendFrame(in, pd.ref, uint32(i), payload, pad)
+			sizes = append(sizes, ln)
+		}
+		pattern := []int{1 << 30}
+		if rapid.IntRange(0, 3).Draw(t, "chunked") == 0 {
+			pattern, _ = genPattern(t, "chunks", len(in))
+		}
+		run := func(precise bool) (decodeStats, *decodeFailure) {
+			b := &bin.Buffer{Buf: append(make([]byte, 0, cap(buf)), buf...)}
+			return checkDecodeBuf(pd, in, pattern, b, reuseAllocLimit, knownFull, knownAbr, precise)
+		}
+		ds, fail := run(false)
+		if fail != nil && fail.allocMeasured {
+			ds, fail = run(true)
+		}
+		if fail != nil {
+			t.Fatalf("[signature %s] buffer with %d stale bytes (cap %d), frames %v: %s", fail.sig, prior, prior+extra, sizes, fail.msg)
+		}
+		if ds.frames != nFrames {
+			t.Fatalf("[signature C17/frame] buffer with %d stale bytes (cap %d), %s frames %v: %d of %d valid frames were read (errors %d)", prior, prior+extra, pd.name, sizes, ds.frames, nFrames, ds.errs)
+		}
+		big := false
+		prev := prior
+		for _, n := range sizes {
+			if prev+n > reuseAllocLimit {
+				big = true
+			}
+			prev = n
+		}
+		cls := []string{"proto:" + pd.name, fmt.Sprintf("prior:%s", sizeClass(prior))}
+		if big {
+			cls = append(cls, "stale+frame>bound")
+		}
+		// non-trivial: the buffer holds stale bytes when some frame is read into it
+		st.Case(fmt.Sprintf("%s/%d+%d/%x/%v/%v", pd.name, prior, extra, stale, sizes, pattern), prior > 0 || nFrames > 1, fmt.Sprintf("%s prior=%d spare=%d frames=%v", pd.name, prior, extra, sizes), cls...)
+	})
+}
+
+func maxPayload(pd protoDef) int {
+	switch pd.ref {
+	case ref.FrameFull:
+		return frameLimit - 12
+	case ref.FramePadded:
+		return frameLimit - 4
+	}
+	return frameLimit
+}
+
+func sizeClass(n int) string {
+	switch {
+	case n == 0:
+		return "0"
+	case n < 16:
+		return "<16"
+	case n < 1<<20:
+		return "<1MiB"
+	case n < 9<<20:
+		return "<9MiB"
+	}
+	return ">=9MiB"
 }
 
 // sweepInputs enumerates the full small-prefix sweep of the design: every
